@@ -526,6 +526,10 @@ func defectCatalogue() []defect {
 		{"flip-auth", true, func(c *hctx.Ctx, s *testService, r *recipe, d time.Duration) { r.flipAuth = c.R.Intn(1 << 20) }},
 		{"trunc-auth", true, func(c *hctx.Ctx, s *testService, r *recipe, d time.Duration) { r.truncAuth = c.R.Intn(40) }},
 		{"cname-mismatch", true, func(c *hctx.Ctx, s *testService, r *recipe, d time.Duration) { r.authCName = []string{"administrator"} }},
+		{"cname-boundary", true, func(c *hctx.Ctx, s *testService, r *recipe, d time.Duration) {
+			r.cname = []string{"host", "client.test.gokrb5"}
+			r.authCName = []string{"host/client.test.gokrb5"}
+		}},
 		{"cname-prefix", true, func(c *hctx.Ctx, s *testService, r *recipe, d time.Duration) {
 			r.authCName = append(append([]string{}, r.cname...), "admin")
 		}},
@@ -556,7 +560,7 @@ func defectCatalogue() []defect {
 
 var defectField = map[string]string{"start-outside": "start", "start-inside": "start", "start-absent": "start", "end-outside": "end", "end-inside": "end",
 	"flip-ticket": "tktcipher", "trunc-ticket": "tktcipher", "flip-auth": "authcipher", "trunc-auth": "authcipher",
-	"cname-mismatch": "authcname", "cname-prefix": "authcname", "multi-component-client": "authcname", "invalid-flag": "flags", "other-flags": "flags",
+	"cname-mismatch": "authcname", "cname-prefix": "authcname", "cname-boundary": "authcname", "multi-component-client": "authcname", "invalid-flag": "flags", "other-flags": "flags",
 	"ctime-late": "ctime", "ctime-early": "ctime", "ctime-inside": "ctime", "wrong-key": "tktkey", "auth-key": "authkey"}
 
 func defectIndex(cat []defect, name string) int {
